@@ -114,8 +114,8 @@ func trueOnlyIf(v ssa.Value, at *ssa.BasicBlock, callee *ssa.Function, depth int
 	if c, ok := v.(*ssa.Call); ok && c.Common().StaticCallee() == callee {
 		return true, "is the call result"
 	}
-	for _, ce := range ssax.DominatingEdges(at) {
-		if c, ok := ce.If.Cond.(*ssa.Call); ok && c.Common().StaticCallee() == callee && ce.Succ == 0 {
+	for _, f := range ssax.Facts(at) {
+		if c, ok := f.Cond.(*ssa.Call); ok && c.Common().StaticCallee() == callee && f.True {
 			return true, "dominated by true edge of " + callee.Name() + "()"
 		}
 	}
@@ -166,9 +166,9 @@ func checkC08(c *Ctx) *core.Result {
 				pol = -1
 			}
 		} else {
-			for _, ce := range ssax.DominatingEdges(ret.Block()) {
-				if ce.If.Cond == verdict {
-					if ce.Succ == 0 {
+			for _, f := range ssax.Facts(ret.Block()) {
+				if f.Cond == verdict {
+					if f.True {
 						pol = 1
 					} else {
 						pol = -1
@@ -321,8 +321,8 @@ func checkC08(c *Ctx) *core.Result {
 				continue
 			}
 			gated := false
-			for _, ce := range ssax.DominatingEdges(ret.Block()) {
-				if cl, ok := ce.If.Cond.(*ssa.Call); ok && cl.Common().StaticCallee() == cfp && ce.Succ == 0 {
+			for _, f := range ssax.Facts(ret.Block()) {
+				if cl, ok := f.Cond.(*ssa.Call); ok && cl.Common().StaticCallee() == cfp && f.True {
 					gated = true
 				}
 			}
@@ -385,15 +385,15 @@ func checkC08(c *Ctx) *core.Result {
 		}
 		// must be on the len(fingerprint) ≥ 1 side
 		nonEmpty := false
-		for _, ce := range ssax.DominatingEdges(ret.Block()) {
-			cb, ok := ce.If.Cond.(*ssa.BinOp)
+		for _, f := range ssax.Facts(ret.Block()) {
+			cb, ok := f.Cond.(*ssa.BinOp)
 			if !ok {
 				continue
 			}
 			if isLenOfField(a, cb.X, "sql.state.fingerprint") {
 				k, okk := ssax.ConstInt(cb.Y)
-				if okk && ((cb.Op == token.LSS && k == 1 && ce.Succ == 1) || (cb.Op == token.LEQ && k == 0 && ce.Succ == 1) || (cb.Op == token.EQL && k == 0 && ce.Succ == 1) ||
-					(cb.Op == token.GEQ && k == 1 && ce.Succ == 0) || (cb.Op == token.GTR && k == 0 && ce.Succ == 0) || (cb.Op == token.NEQ && k == 0 && ce.Succ == 0)) {
+				if okk && ((cb.Op == token.LSS && k == 1 && !f.True) || (cb.Op == token.LEQ && k == 0 && !f.True) || (cb.Op == token.EQL && k == 0 && !f.True) ||
+					(cb.Op == token.GEQ && k == 1 && f.True) || (cb.Op == token.GTR && k == 0 && f.True) || (cb.Op == token.NEQ && k == 0 && f.True)) {
 					nonEmpty = true
 				}
 			}
